@@ -127,7 +127,7 @@ func c15tile(r *h.Rand, idx uint64) maptile.Tile {
 }
 
 func init() {
-	optsOrd := &gen.GeomOpts{Float: gen.FloatOrdinary, NilSlices: true, Empty: true, EmptyParts: true, RingBound: true}
+	optsOrd := &gen.GeomOpts{Float: gen.FloatOrdinary, NilSlices: true, Empty: true, EmptyParts: true, RingBound: true, Huge: true}
 	optsTiny := &gen.GeomOpts{Float: func(r *h.Rand) float64 { return float64(r.Intn(4)) }, Empty: true, EmptyParts: true, RingBound: true, MaxLen: 6}
 
 	h.Register(&h.Monitor{
